@@ -49,12 +49,12 @@ TIERS = {
         solo_reuse=[('reuse',)],
         incant_other=3, deadline_s=300),
     'thorough': dict(
-        solo_seeds=8, pair_maxlen=3, deep_windows=6, incant_maxlen=3,
+        solo_seeds=8, pair_maxlen=3, deep_windows=6, incant_maxlen=2,
         quota={(1, 3): 10, (1, 2): 4, (2, 2): 2, (2, 3): 6, (3, 3): 2,
                (1, 4): 16, (2, 4): 6, (3, 4): 3, (4, 4): 1},
         solo_reuse=[('reuse',), ('parse', 'reuse'), ('reuse', 'parse'),
                     ('reuse', 'reuse')],
-        incant_other=60, deadline_s=720),
+        incant_other=30, deadline_s=600),
 }
 
 RULE = (
@@ -825,7 +825,6 @@ def RepoTag():
 
 def Run(tier):
   clock = common.Clock()
-  t_start = time.time()
   cfg = TIERS[tier]
   workdir = common.BuildDir('c13', tier + RepoTag())
   for f in os.listdir(workdir):
@@ -862,11 +861,13 @@ def Run(tier):
         len(histories), want), 'enumeration incomplete')
 
   required, optional = Select(histories, windows, tier)
-  runner = Runner(corpus_path, workdir, t_start + cfg['deadline_s'])
+  runner = Runner(corpus_path, workdir, None)
   req_segs = [s for h in required for s in Segments(h)]
   opt_segs = [s for h in optional for s in Segments(h)]
   runner.Run(req_segs, True)
-  skipped = runner.Run(opt_segs, False)
+  # the time budget of the optional part starts when the baseline is recorded
+  runner.deadline = time.time() + cfg['deadline_s']
+  runner.Run(opt_segs, False)
   t_run = clock()
   if runner.failed:
     return Fail('worker process failed: %s' % (runner.failed[:3],),
